@@ -293,6 +293,12 @@ func optsString(o *spec.ExpandOptions) string {
 
 // runEntry performs one public call against the world. cache may be nil (only some entries accept one).
 func runEntry(w *refgraph.World, call entryCall, cache spec.ResolutionCache, loader func(string) (json.RawMessage, error)) entryResult {
+	return runEntryWith(w, call, cache, loader, nil)
+}
+
+// runEntryWith: like runEntry; when shared is non-nil the call is made with THAT option structure (which other
+// goroutines may be using at the same time) instead of a private one.
+func runEntryWith(w *refgraph.World, call entryCall, cache spec.ResolutionCache, loader func(string) (json.RawMessage, error), shared *spec.ExpandOptions) entryResult {
 	var res entryResult
 	rootDoc := w.Docs[w.Root]
 	elem, _ := refgraph.Eval(rootDoc, call.Path)
@@ -301,6 +307,9 @@ func runEntry(w *refgraph.World, call entryCall, cache spec.ResolutionCache, loa
 		baseLoc = call.Base
 	}
 	opts := &spec.ExpandOptions{RelativeBase: baseLoc, PathLoader: loader, SkipSchemas: call.Skip, ContinueOnError: call.Cont, AbsoluteCircularRef: call.Abs}
+	if shared != nil {
+		opts = shared
+	}
 	before := optsString(opts)
 	var out interface{}
 	var err error
@@ -994,6 +1003,49 @@ func runC17(c *Ctx) {
 					if msg, ok := sameOutcome(ws[i], "swagger", refs[i], got[i], ws[i].BuildGraph().Cyclic()); !ok {
 						c.Fail(Failure{Kind: "oracle", Sig: "C17:concurrent-result-differs", What: "ExpandSpec run concurrently with others on distinct documents differs from its sequential result: " + msg, Case: map[string]interface{}{"world": worldJSON(ws[i])}})
 					}
+				}
+			}
+		}
+		// (A') n copies of one multi-document specification, each goroutine expanding its own copy, all of them handed
+		// the SAME option structure (a caller is entitled to: the calls promise to leave it unchanged)
+		{
+			var w *refgraph.World
+			for {
+				w = refgraph.Generate(c.Rng, cacheFamilies()[(r+1)%4].opts)
+				if len(w.BuildGraph().Missing) == 0 && len(w.Docs) > 1 {
+					break
+				}
+			}
+			ref := runEntry(w, entryCall{Entry: "spec"}, nil, loaderFor(w, nil, nil))
+			shared := &spec.ExpandOptions{RelativeBase: w.Root, PathLoader: loaderFor(w, nil, nil)}
+			before := optsString(shared)
+			got := make([]entryResult, n)
+			var wg sync.WaitGroup
+			_, hang := timed(60*time.Second, func() {
+				for i := 0; i < n; i++ {
+					wg.Add(1)
+					go func(i int) {
+						defer wg.Done()
+						got[i] = runEntryWith(w, entryCall{Entry: "spec"}, nil, nil, shared)
+					}(i)
+				}
+				wg.Wait()
+			})
+			c.Count(fmt.Sprint("A'", r, n), true)
+			c.Hit("scenario:shared-options")
+			cs := map[string]interface{}{"world": worldJSON(w), "goroutines": n, "scenario": "one option structure shared by all calls"}
+			if hang {
+				c.Fail(Failure{Kind: "crash", Sig: "C17:deadlock", What: "concurrent ExpandSpec calls sharing one option structure did not finish within 60 s", Case: cs})
+			} else {
+				cyc := w.BuildGraph().Cyclic()
+				for i := 0; i < n; i++ {
+					if msg, ok := sameOutcome(w, "swagger", ref, got[i], cyc); !ok {
+						c.Fail(Failure{Kind: "oracle", Sig: "C17:concurrent-result-differs", What: "ExpandSpec run concurrently with others that were given the same option structure differs from its sequential result: " + msg, Case: cs})
+						break
+					}
+				}
+				if after := optsString(shared); after != before {
+					c.Fail(Failure{Kind: "oracle", Sig: "C17:shared-options-modified", What: "the option structure shared by the concurrent calls was modified: " + before + " -> " + after, Case: cs})
 				}
 			}
 		}
